@@ -243,6 +243,22 @@ func (vf *valueFlow) Run(site int, errVar types.Object, initial map[types.Object
 							rv[i] = s.Vals[objOf(info, rhs)]
 						default:
 							rv[i] = vf.Eval(s, rhs)
+							if rv[i] == "" {
+								// the tracked error wrapped into a new one (fmt.Errorf("step: %w", err), stepErr(step, err)):
+								// the new value is an error exactly where the old one is
+								if c, ok := ast.Unparen(rhs).(*ast.CallExpr); ok {
+									if tv, ok := info.Types[c]; ok && isErrorType(tv.Type) {
+										for _, a := range c.Args {
+											ast.Inspect(a, func(x ast.Node) bool {
+												if id, ok := x.(*ast.Ident); ok && s.Vals[objOf(info, id)] == vfErr {
+													rv[i] = vfErr
+												}
+												return true
+											})
+										}
+									}
+								}
+							}
 						}
 					}
 					for i, lhs := range st.Lhs {
